@@ -249,7 +249,10 @@ func TestVerifReplay(t *testing.T) {
 		name string
 		f    SFFunction
 		want float64
-	}{{"SFDigits1", SFDigits1, math.Log2(10)}, {"SFDigits2", SFDigits2, 2 * math.Log2(10)}, {"SFDigitsNoAmbiguous1", SFDigitsNoAmbiguous1, math.Log2(7)}, {"SFSymbols", SFSymbols, math.Log2(6)}, {"SFNone", SFNone, 0}} {
+	}{{"SFDigits1", SFDigits1, math.Log2(10)}, {"SFDigits2", SFDigits2, 2 * math.Log2(10)}, {"SFDigitsNoAmbiguous1", SFDigitsNoAmbiguous1, math.Log2(7)}, {"SFSymbols", SFSymbols, math.Log2(6)}, {"SFNone", SFNone, 0},
+		{"NewSFFunction(CharRecipe{Length:1, AllowChars:\"¡¿\"})", NewSFFunction(CharRecipe{Length: 1, AllowChars: "¡¿"}), 1},
+		{"NewSFFunction(CharRecipe{Length:3, AllowChars:\"äöüé\"})", NewSFFunction(CharRecipe{Length: 3, AllowChars: "äöüé"}), 6},
+		{"NewSFFunction(CharRecipe{Length:2, AllowChars:\"ab\", RequireSets:{\"1\"}})", NewSFFunction(CharRecipe{Length: 2, AllowChars: "ab", RequireSets: []string{"1"}}), math.Log2(5)}} {
 		_, e := s.f()
 		if math.Abs(float64(e)-s.want) > 1e-3 {
 			vReport(vHit{Input: map[string]interface{}{"separator": s.name}, Observed: vSprint("reported entropy ", e), Required: vSprint("log2 of the number of equally likely separators = ", s.want)})
